@@ -164,3 +164,159 @@ def _must_pass_edge(cfg, C, N):
                 continue
             st.append(s)
     return N.id not in seen
+
+
+# ---------------------------------------------------------------- binary heaps of MC64 (mc64dd_ insert, mc64ed_ delete-root, mc64fd_ delete-any)
+_FLIP = {'<': '>', '>': '<', '<=': '>=', '>=': '<='}
+
+
+def _ser(n, flip, labels, out):
+    """structural serialisation of a statement tree; floating comparisons mirrored when flip; goto targets / labels numbered by first use"""
+    from ..facts import strip
+    if n is None:
+        out.append('~')
+        return
+    if n.k in ('Paren', 'Cast', 'ImplicitCast'):
+        return _ser(n.c[0], flip, labels, out)
+    tag = n.k
+    if n.k == 'Binary':
+        op = n.a['op']
+        if flip and op in _FLIP and any('double' in (strip(c).t or '') or 'float' in (strip(c).t or '') for c in n.c):
+            op = _FLIP[op]
+        tag += op
+    elif n.k in ('Unary', 'Assign'):
+        tag += n.a.get('op', '')
+    elif n.k == 'Ref':
+        tag += ':' + n.a.get('name', '?')
+    elif n.k in ('Int', 'Float'):
+        tag += ':' + str(n.a.get('value'))
+    elif n.k == 'Goto':
+        t = n.a.get('target')
+        tag += ':%d' % labels.setdefault(t, len(labels))
+    elif n.k == 'Label':
+        t = n.a.get('id') or n.a.get('declId') or n.a.get('name')
+        tag += ':%d' % labels.setdefault(t, len(labels))
+    out.append((tag, n.line))
+    out.append('(')
+    for c in n.c:
+        _ser(c, flip, labels, out)
+    out.append(')')
+
+
+def heap_rules(chk, cid, prog, cfgname, unit='SRC/mc64ad.c'):
+    """MC64 keeps the candidate rows in a binary heap q[1..qlen] keyed by d[]; iway = 1 is a max-heap (bottleneck job), anything else a
+    min-heap (shortest paths).  (H1) the two branches of each heap routine are mirror images: identical statement for statement once
+    every floating comparison of the second is reversed - a one-sided change breaks the heap order for one job only.  (H2) sift-down: the
+    children of pos are 2*pos and 2*pos+1; the loop leaves when `posk > *qlen` (no child), and looks at the sibling exactly when
+    `posk < *qlen`; any other comparison skips a last only child or reads one past the heap.  (H3) sift-up: the parent is pos / 2 and the
+    loop leaves when `pos <= 1`."""
+    from ..facts import strip, canon, loc, const_value
+    from ..ir import pretty
+    from ..run import AnalysisBroken
+    chk.clause(cid, 'MC64 heap routines: max-heap and min-heap branches are mirror images; child / parent index arithmetic of a 1-based binary heap')
+    n = 0
+    for fname in ('mc64dd_', 'mc64ed_', 'mc64fd_'):
+        f = prog.func(fname)
+        if f is None:
+            raise AnalysisBroken('%s not found' % fname)
+        chk.saw(unit=f.unit, func=f.unit + ':' + f.name)
+        # H1
+        split = None
+        for x in f.body.walk():
+            if x.k == 'If' and len(x.c) > 2 and canon(x.c[0], ids=False).replace(' ', '').replace('(', '').replace(')', '') == '*iway==1':
+                split = x
+                break
+        if split is None:
+            raise AnalysisBroken('%s: `if (*iway == 1)` not found' % fname)
+        a, b = [], []
+        _ser(split.c[1], False, {}, a)
+        _ser(split.c[2], True, {}, b)
+        n += 1
+        inst = '%s:max-and-min-branch-mirror' % fname
+        ta = [t[0] if isinstance(t, tuple) else t for t in a]
+        tb = [t[0] if isinstance(t, tuple) else t for t in b]
+        if ta == tb:
+            chk.ok(cid, inst, sample='%d nodes per branch' % len([t for t in a if isinstance(t, tuple)]))
+        else:
+            k = next((i for i in range(min(len(ta), len(tb))) if ta[i] != tb[i]), min(len(ta), len(tb)) - 1)
+            la = next((t[1] for t in a[k:] if isinstance(t, tuple) and t[1]), split.line)
+            lb = next((t[1] for t in b[k:] if isinstance(t, tuple) and t[1]), split.line)
+            chk.violate(cid, inst, '%s:%d' % (f.unit, lb or la), fname,
+                        'the iway = 1 (max-heap) branch and the min-heap branch of %s are no longer mirror images: at lines %s / %s the first has `%s`, the '
+                        'second (comparisons reversed) `%s`: one of the two heaps orders its elements the wrong way round' % (fname, la, lb, ta[k], tb[k]),
+                        cfgname=cfgname)
+        # H2 / H3 / H4
+        maxnodes = {id(x) for x in split.c[1].walk()}
+
+        def cmps(stmts, lhs):
+            # comparisons `lhs OP other` (operands swapped into that order) in the If conditions of a statement list, nested Ifs included
+            out = []
+            for st in stmts:
+                for x in st.walk():
+                    if x.k == 'If':
+                        c = strip(x.c[0])
+                        if c.k == 'Binary' and c.a['op'] in _FLIP:
+                            l, r = strip(c.c[0]), strip(c.c[1])
+                            if l.k == 'Ref' and l.a.get('name') == lhs:
+                                out.append((c.a['op'], canon(r, ids=False).replace(' ', '').replace('(', '').replace(')', '')))
+                            elif r.k == 'Ref' and r.a.get('name') == lhs:
+                                out.append((_FLIP[c.a['op']], canon(l, ids=False).replace(' ', '').replace('(', '').replace(')', '')))
+            return out
+        for loop in f.body.walk():
+            if loop.k != 'For':
+                continue
+            body = loop.c[3]
+            stmts = body.c if body.k == 'Block' else [body]
+            for i, st in enumerate(stmts):
+                s0 = strip(st)
+                if not (s0.k == 'Assign' and s0.a['op'] == '=' and strip(s0.c[0]).k == 'Ref' and strip(s0.c[0]).a.get('name') == 'posk'):
+                    continue
+                r = strip(s0.c[1])
+                down = r.k == 'Binary' and ((r.a['op'] == '<<' and const_value(r.c[1]) == 1) or (r.a['op'] == '*' and 2 in (const_value(r.c[0]), const_value(r.c[1]))))
+                up = r.k == 'Binary' and r.a['op'] == '/' and const_value(r.c[1]) == 2
+                if down:
+                    n += 1
+                    inst = '%s:sift-down-child-tests@%d' % (fname, s0.line and n)
+                    tests = ['posk%s%s' % (o, r_) for (o, r_) in cmps(stmts[i + 1:], 'posk') if 'qlen' in r_]
+                    want = ['posk>*qlen', 'posk<*qlen']
+                    if id(loop) in maxnodes:
+                        # orientation of the max-heap: the larger child is taken (`dk < dr` moves to the sibling), the loop leaves when di >= dk
+                        n += 1
+                        o1 = [(o, r_) for (o, r_) in cmps(stmts[i + 1:], 'dk')]
+                        o2 = [(o, r_) for (o, r_) in cmps(stmts[i + 1:], 'di')]
+                        inst2 = '%s:max-heap-orientation-down@%d' % (fname, n)
+                        if ('<', 'dr') in o1 and ('>=', 'dk') in o2:
+                            chk.ok(cid, inst2, sample='sibling when dk < dr, leave when di >= dk')
+                        else:
+                            chk.violate(cid, inst2, loc(f, s0), fname,
+                                        'max-heap (iway = 1) sift-down must move to the sibling when `dk < dr` and leave when `di >= dk`; found %s / %s: '
+                                        'the bottleneck job pops rows in the wrong order' % (o1, o2), cfgname=cfgname)
+                    if tests[:2] == want:
+                        chk.ok(cid, inst, sample='leave when posk > *qlen, sibling when posk < *qlen')
+                    else:
+                        chk.violate(cid, inst, loc(f, s0), fname,
+                                    'sift-down of a 1-based heap of *qlen elements: after `%s` the loop must leave exactly when `posk > *qlen` and look at the '
+                                    'sibling exactly when `posk < *qlen`; found %s (a last only child is skipped, or q[*qlen + 1] is read)'
+                                    % (pretty(s0), tests[:2] or 'no such tests'), cfgname=cfgname)
+                elif up:
+                    n += 1
+                    inst = '%s:sift-up-root-test@%d' % (fname, n)
+                    tests = ['pos%s%s' % (o, r_) for (o, r_) in cmps(stmts[:i], 'pos')]
+                    if id(loop) in maxnodes:
+                        n += 1
+                        o2 = cmps(stmts[i + 1:], 'di')
+                        inst2 = '%s:max-heap-orientation-up@%d' % (fname, n)
+                        if o2 and o2[0][0] in ('<=', '<') and o2[0][1].startswith('d__['):
+                            chk.ok(cid, inst2, sample='leave when di <= d[parent]')
+                        else:
+                            chk.violate(cid, inst2, loc(f, s0), fname,
+                                        'max-heap (iway = 1) sift-up must leave when `di <= d[parent]`; found %s' % (o2[:1],), cfgname=cfgname)
+                    if tests and tests[-1] == 'pos<=1':
+                        chk.ok(cid, inst, sample='leave when pos <= 1, parent pos / 2')
+                    else:
+                        chk.violate(cid, inst, loc(f, s0), fname,
+                                    'sift-up: the parent `%s` may only be taken after the test `pos <= 1` has left the loop at the root; found %s'
+                                    % (pretty(s0), tests[-1:] or 'no test'), cfgname=cfgname)
+    if n < 15:
+        raise AnalysisBroken('heap_rules: %d instances, expected >= 15 (3 mirrors, 4 sift-down, 4 sift-up loops, 4 orientations)' % n)
+    return n
